@@ -770,6 +770,18 @@ def check_powerlaw_sample(ctx, cases):
             ctx.case()
             ctx.violation('property', '%s returned %s' % (call, _brief(r[1])), rep, site='stats.powerlaw_sample')
             continue
+        if float(alpha) < 1.05:
+            # exponents this close to 1: (1 - r) ** (-1 / (alpha - 1)) leaves the float64 range for the largest draws (inf), a corner the statement
+            # does not settle; what it does settle is HOW MANY values come back, and that the finite ones are integers >= xmin (seeded change
+            # C17-r8m3: the overflowing draws filtered out, so fewer than `size` values)
+            ctx.case(nontrivial_key=('pl-overflow', int(size), float(alpha), seed))
+            ctx.count('powerlaw_sample:alpha<1.05 (overflow corner: count and finite values only)')
+            fin = [v for v in vals if math.isfinite(v)]
+            if len(vals) != int(size) or any(v < float(xmin) or v != math.floor(v) for v in fin) or any(v != v for v in vals):
+                ctx.violation('property', '%s with numpy seed %d: %d values returned, %d requested; finite values below xmin or not integers: %s' %
+                              (call, seed, len(vals), int(size), [v for v in fin if v < float(xmin) or v != math.floor(v)][:3]),
+                              dict(rep, returned=len(vals)), site='stats.powerlaw_sample')
+            continue
         if not all(math.isfinite(v) for v in vals):
             ctx.case()
             ctx.violation('property', '%s returned a non-finite value' % call, rep, site='stats.powerlaw_sample')
@@ -1147,6 +1159,8 @@ def gen_powerlaw_cases(ctx):
         cases.append((size, xmin, alpha, _seed(ctx)))
     for size in ([10 ** 5] if ctx.quick else [10 ** 5] * 8 + [10 ** 4] * 20):
         cases.append((size, rng.randint(1, 50), round(rng.uniform(1.06, 6.0), 3), _seed(ctx)))
+    for alpha in ([1.01, 1.02] if ctx.quick else [1.005, 1.01, 1.015, 1.02, 1.03, 1.04]):
+        cases.append((50000, rng.randint(1, 9), alpha, _seed(ctx)))
     return cases
 
 
